@@ -28,7 +28,8 @@ MANIFEST = dict(
          "machine against an independent big-step reference semantics. C09_compile_correct: for EVERY program of the "
          "modelled language and every fuel, if compilation stays within the u16 ranges and the reference evaluation "
          "(static binding; no stale function value is called) yields print output and a final value, the machine "
-         "running the compiled code halts with exactly that output and value. Named clauses: C09_field_order, "
+         "running the compiled code halts with exactly that output and value. C09_compile_correct_static: the same for the plain static semantics when no function name is defined twice. "
+         "Named clauses: C09_field_order, "
          "C09_list_order, C09_string_order, C09_arg_order, C09_innermost_binding; C09_no_stuck_partial (no panic / "
          "error on such runs). The unrestricted statement is refuted for function values taken before a redefinition "
          "(C09_funref_refuted; open finding). C09_errors_partial: runtime errors of the reference are errors of the same kind on the machine (struct "
@@ -45,7 +46,7 @@ MANIFEST = dict(
     technique="Coq forward-simulation proof (fuel induction, frame-generic invariant) + three-way model/implementation correspondence by vm_compute",
 )
 
-THEOREMS = ["C09_compile_correct", "C09_no_stuck_partial", "C09_no_stuck_on_error_partial", "C09_errors_partial", "C09_expr_simulation", "C09_list_order", "C09_arg_order",
+THEOREMS = ["C09_compile_correct", "C09_compile_correct_static", "C09_no_stuck_partial", "C09_no_stuck_on_error_partial", "C09_errors_partial", "C09_expr_simulation", "C09_list_order", "C09_arg_order",
             "C09_string_order", "C09_field_order", "C09_innermost_binding", "C09_funref_refuted"]
 ALLOWED_AXIOMS = []
 FRAGMENT_OPCODES = ["LoadConstant", "GetLocal", "GetUpvalue", "GetLastResult", "Negate", "LogicalNeg", "Factorial",
@@ -218,6 +219,9 @@ class Gen:
             if c < 0.70:
                 n = r.randrange(0, 5)
                 self.features["fact"] += 1
+                if r.random() < 0.3:
+                    n = r.randrange(0, 8)
+                    return "(%d!!)" % n, "EUn (UFact 2) (EScalar %d%%Z)" % n
                 return "(%d!)" % n, "EUn (UFact 1) (EScalar %d%%Z)" % n
             if c < 0.80 and "len" in self.foreign:
                 et = r.choice([S, B])
@@ -255,6 +259,13 @@ class Gen:
                 a, ac, _ = self.list_expr(et, d - 1, scope, nostr)
                 b, bc, _ = self.list_expr(et, d - 1, scope, nostr)
                 self.features["listeq"] += 1
+                return "(%s %s %s)" % (a, op, b), "EBin %s (%s) (%s)" % (cop, ac, bc)
+            if c < 0.90 and not nostr and self.structs:
+                op, cop = r.choice([("==", "BEq"), ("!=", "BNe")])
+                st = tstruct(r.choice(sorted(self.structs)))
+                a, ac = self.expr(st, d - 1, scope)
+                b, bc = self.expr(st, d - 1, scope)
+                self.features["structeq"] += 1
                 return "(%s %s %s)" % (a, op, b), "EBin %s (%s) (%s)" % (cop, ac, bc)
             if c < 0.93 and not nostr:
                 op, cop = r.choice([("==", "BEq"), ("!=", "BNe")])
@@ -511,7 +522,10 @@ class Gen:
         name = free[0]
         nf = r.randrange(1, 4)
         fs = r.sample(self.FIELDS, nf)
-        fields = [(f, r.choice([S, S, B, T, tlist(S)])) for f in fs]
+        nested = [tstruct(n) for n in sorted(self.structs)]
+        fields = [(f, r.choice([S, S, B, T, tlist(S)] + nested)) for f in fs]
+        if any(ft[0] == "R" for _, ft in fields):
+            self.features["nested_struct"] += 1
         self.structs[name] = fields
         self.src.append("struct %s { %s }" % (name, ", ".join("%s: %s" % (f, type_src(t)) for f, t in fields)))
         self.coq.append("SStruct %s %s" % (cstr(name), clist(cstr(f) for f, _ in fields)))
@@ -1035,7 +1049,7 @@ def run(chk):
     for c in load_corpus():
         cases.append((c["src"], c["coq"]))
         kinds.append("corpus")
-    nrand = 1500 if quick else 12000
+    nrand = 1000 if quick else 10000
     feats = collections.Counter()
     gen_fail = 0
     for n in range(nrand):
